@@ -400,6 +400,14 @@ func (e *errMapKeyNotFound) Error() string {
 	return fmt.Sprintf("key=%s", e.mapKey)
 }
 
+type errNilOnFieldPath struct {
+	field string
+}
+
+func (e *errNilOnFieldPath) Error() string {
+	return fmt.Sprintf("field mapping from a nil pointer or nil interface value, cannot take field=%s", e.field)
+}
+
 type errInterfaceNotValidForFieldMapping struct {
 	interfaceType reflect.Type
 	actualType    reflect.Type
@@ -578,6 +586,12 @@ func fieldMap(mappings []*FieldMapping, allowMapKeyNotFound bool) func(any) (map
 						return nil, err
 					}
 
+					// a nil pointer / nil interface on the path can only be seen at request time, so we won't panic here
+					var nilOnPathErr *errNilOnFieldPath
+					if errors.As(err, &nilOnPathErr) {
+						return nil, err
+					}
+
 					// map key not found can only be a request time error, so we won't panic here
 					var mapKeyNotFoundErr *errMapKeyNotFound
 					if errors.As(err, &mapKeyNotFoundErr) {
@@ -619,6 +633,9 @@ func takeOne(inputValue reflect.Value, inputType reflect.Type, from string) (tak
 
 		return f.Interface(), f.Type(), nil
 	case reflect.Ptr, reflect.Interface:
+		if inputValue.IsNil() {
+			return nil, nil, &errNilOnFieldPath{field: from}
+		}
 		inputValue = inputValue.Elem()
 		fallthrough
 	case reflect.Struct:
@@ -629,6 +646,9 @@ func takeOne(inputValue reflect.Value, inputType reflect.Type, from string) (tak
 
 		return f.Interface(), f.Type(), nil
 	default:
+		if !inputValue.IsValid() {
+			return nil, nil, &errNilOnFieldPath{field: from}
+		}
 		if inputType.Kind() == reflect.Interface {
 			return nil, nil, &errInterfaceNotValidForFieldMapping{
 				interfaceType: inputType,
